@@ -29,7 +29,7 @@ def run_checks(src, checks):
             lines = [l[:300] for l in out.split("\n") if l.startswith("VIOLATION") or l.startswith("[K/O]") or l.startswith("[S]") or l.startswith("[P]") or l.startswith("[K]")]
             r[c] = {"exit": rc, "lines": lines}
     finally:
-        sh(["git", "-C", "/repo", "checkout", "--", "."])
+        sh(["git", "-C", "/repo", "apply", "-R", os.path.join(src, "patch.diff")])  # never a blanket checkout: /repo's working tree is shared
     return r
 
 def recheck_only(pid, src, meta, checks):
@@ -138,7 +138,7 @@ def main():
             lines = [l[:300] for l in out.split("\n") if l.startswith("VIOLATION") or l.startswith("[K/O]") or l.startswith("[S]") or l.startswith("[P]") or l.startswith("[K]")]
             res["checks"][c] = {"exit": rc, "lines": lines}
     finally:
-        sh(["git", "-C", "/repo", "checkout", "--", "."])
+        sh(["git", "-C", "/repo", "apply", "-R", os.path.join(src, "patch.diff")])  # never a blanket checkout: /repo's working tree is shared
     dst = "/verif/seeded/%s" % name
     os.makedirs(dst, exist_ok=True)
     for f in ("patch.diff", "demo.rs", "demo_cmd.txt"):
